@@ -24,7 +24,7 @@ Lemma gen_report_getReceived_eq p f seq : 0 <= seq < 65536 -> rs_rep p f ->
   g_report_receiverStream_getReceived 128 p seq = f (ReceiverStream.slot seq).
 Proof.
   intros Hs R. destruct (rs_pos seq Hs) as (E & Hr).
-  unfold g_report_receiverStream_getReceived. cbv zeta. rewrite E.
+  gnorm. rewrite E.
   rewrite bits_get by lia. apply R. lia.
 Qed.
 
@@ -33,7 +33,7 @@ Lemma gen_report_setReceived_eq p f seq : 0 <= seq < 65536 -> g_len p = 128 -> r
   rs_rep (g_report_receiverStream_setReceived 128 p seq) (ReceiverStream.set_bit f (ReceiverStream.slot seq)).
 Proof.
   intros Hs L R q Hq. destruct (rs_pos seq Hs) as (E & Hr).
-  unfold g_report_receiverStream_setReceived, ReceiverStream.set_bit. cbv zeta. rewrite E.
+  gnorm. unfold ReceiverStream.set_bit. rewrite E.
   rewrite bits_set by lia. rewrite R by lia. reflexivity.
 Qed.
 
@@ -42,7 +42,7 @@ Lemma gen_report_delReceived_eq p f seq : 0 <= seq < 65536 -> g_len p = 128 -> r
   rs_rep (g_report_receiverStream_delReceived 128 p seq) (ReceiverStream.del_bit f (ReceiverStream.slot seq)).
 Proof.
   intros Hs L R q Hq. destruct (rs_pos seq Hs) as (E & Hr).
-  unfold g_report_receiverStream_delReceived, ReceiverStream.del_bit. cbv zeta. rewrite E.
+  gnorm. unfold ReceiverStream.del_bit. rewrite E.
   rewrite bits_del by lia. rewrite R by lia. reflexivity.
 Qed.
 
@@ -52,10 +52,8 @@ Lemma gen_report_bitmap_safe p seq : 0 <= seq < 65536 -> g_len p = 128 ->
   g_report_receiverStream_getReceived_safe 128 p seq = true.
 Proof.
   intros Hs L. destruct (rs_pos seq Hs) as (E & Hr).
-  unfold g_report_receiverStream_setReceived_safe, g_report_receiverStream_delReceived_safe,
-    g_report_receiverStream_getReceived_safe. cbv zeta. rewrite E.
-  change ((128 * 64) mod 65536 =? 0) with false. cbn [negb].
-  assert (B : (ReceiverStream.slot seq / 64 <? g_len p) = true) by lia. rewrite B. auto.
+  assert (B : (ReceiverStream.slot seq / 64 <? g_len p) = true) by lia.
+  repeat split; gnorm; rewrite ?E; change ((128 * 64) mod 65536 =? 0) with false; cbn [negb]; rewrite ?B; tie_cases.
 Qed.
 
 (* receiverStream.processSenderReport: time.Time is the model's option Z (Some now); the two
@@ -64,6 +62,6 @@ Lemma gen_report_processSenderReport_eq (J : Type) (st : ReceiverStream.rstate J
   g_report_receiverStream_processSenderReport (Some now) ntp =
     (ReceiverStream.r_lsr (ReceiverStream.r_sr J st now ntp), ReceiverStream.r_lsr_time (ReceiverStream.r_sr J st now ntp)).
 Proof.
-  unfold g_report_receiverStream_processSenderReport, ReceiverStream.r_sr. cbn [ReceiverStream.r_lsr ReceiverStream.r_lsr_time].
-  cbv zeta. unfold u32. rewrite Z.shiftr_div_pow2 by lia. reflexivity.
+  gnorm. unfold ReceiverStream.r_sr, u32. cbn [ReceiverStream.r_lsr ReceiverStream.r_lsr_time].
+  rewrite ?Z.shiftr_div_pow2 by lia. first [ reflexivity | tie_cases ].
 Qed.
